@@ -554,9 +554,7 @@ val find_arch : w -> mask0 -> nat option
 
 val kind_of : w -> nat -> ckind
 
-val create_archetype : mask0 -> nat mW
-
-val find_or_create_arch : mask0 -> nat mW
+val create_archetype_bare : mask0 -> nat mW
 
 val new_table :
   nat -> arch -> ckind list -> nat -> ent list -> rel list -> table
@@ -568,6 +566,10 @@ val register_targets : rel list -> unit mW
 val check_rel : rel -> unit mW
 
 val create_table : nat -> rel list -> nat mW
+
+val create_archetype : mask0 -> nat mW
+
+val find_or_create_arch : mask0 -> nat mW
 
 val get_or_create_table : nat -> rel list -> nat mW
 
